@@ -230,7 +230,7 @@ CLAIMS["C04"] = (
 ADDED = {
     "C01": "Also: the C09 parenthesis / operand-side / adjacency rules and the C15 name-uniqueness and qualified-reference rules re-evaluated for the HLSL path; crate-level inventory of skipping / reordering sequence operations; index ranges start at 0.",
     "C02": "Also: generate_function_and_trampoline read as a decision table (160 cases); operands repeated by a struct cast are leaves of ir::Expression; the C01 additions for the MSL path.",
-    "C03": "Also: swizzle value-category functions over all slot sequences of length <= 4; ImplicitConversion::find's table for an Lvalue destination (no conversion across element types or dimensions).",
+    "C03": "Also: swizzle value-category functions over all slot sequences of length <= 4; ImplicitConversion::find's table for an Lvalue destination (no conversion across element types or dimensions). Elaboration read as tables: parse_expr_binop / parse_expr_unaryop / parse_expr_ternary, the member and subscript arms of parse_expr_unchecked, write_function, the return arm of parse_statement and parse_initializer are evaluated by the finite-map reader over a matrix of operand types (scalars, vectors, matrices, enum, struct, arrays, every object type; plain / const / volatile; lvalue / rvalue), and every accepted node is typed again by rssl's own IR typing rule (Expression::get_type + IntrinsicOp::get_return_type, asserts included): no abort, same type as reported, operands in order, arguments / returned values / initialisers of exactly the declared type, out/inout arguments mutable lvalues, parts of const values const.",
     "C04": "Also: NameMap uniqueness / generated-names-visible-to-locals rules under this property.",
     "C05": "Also: the numthreads scan of add_stage (whole attribute list, no early exit, argument order).",
     "C06": "Also: LanguageBinding.set / .index are the register annotation's own space / slot index (value-origin trace).",
@@ -251,7 +251,7 @@ ADDED = {
 TECH = {
     "C01": "; ImplicitConversion::apply read on a finite type-registry model",
     "C02": "; trampoline decision and trampoline body read as tables over all parameter lists of length <= 3",
-    "C03": "; ImplicitConversion::find read on a finite type-registry model (value categories, modifiers, lvalue destinations); swizzle value category over all slot sequences <= 4",
+    "C03": "; ImplicitConversion::find read on a finite type-registry model (value categories, modifiers, lvalue destinations); swizzle value category over all slot sequences <= 4; operator / member / subscript / call / return / initialiser elaboration evaluated over operand-type matrices and re-typed with the IR's own typing rule (finite-map reader over THIR, nothing executed)",
     "C05": "; reported entry-point names read as a table over ShaderStage; MIR dominance of the api_slot guard",
     "C06": "; Module::assign_api_bindings read on model modules (480 evaluations) against the allocation rule",
     "C07": "; NameMap::build and assign_api_bindings read on model modules with hash containers walked forwards and backwards",
